@@ -1389,3 +1389,61 @@ def rule_read_feed(ctx, R):
             R.finding(b.fn, "feed#%d:then-%s" % (k, "error" if bad_exits[hit[0]] == "an error" else "nothing-read"),
                       "Connection::read can feed received bytes to the parser (line %d) and then return %s (line %d) in the same call: the connection loop parses only after `data available`, so complete commands already in the parser are dropped with the connection / left unanswered" % (b.bb_line(i), bad_exits[hit[0]], b.bb_line(hit[0])), b.loc(hit[0]),
                       ["bb%d line %d" % (x, b.bb_line(x)) for x in ex.witness(b, hit[0])][-8:])
+
+
+# ---- R-SOCK-WRITE ---------------------------------------------------------------------------------
+_SOCK_W = re.compile(r"^<std::net::TcpStream as std::io::Write>::(write|write_all|write_fmt|write_vectored|write_all_vectored)$")
+W_OFF = "network::connection::Connection.write_offset"
+W_BUF = "network::connection::Connection.write_buffer"
+
+
+def _place_fields(pl):
+    return [e["f"] for e in pl["p"] if isinstance(e, dict) and "f" in e]
+
+
+def rule_sock_write(ctx, R):
+    """the reply bytes queued for a client are sent exactly once, in order, over a non-blocking
+    socket: every write to the connection's stream is a partial `write` of
+    `write_buffer[write_offset..]` whose returned count is added to write_offset.  An
+    all-or-nothing form (write_all / write!) reports nothing about the bytes it sent before
+    WouldBlock, so the retry re-sends them and the reply stream is duplicated / shifted."""
+    n = 0
+    for fn, b in sorted(ctx.prog.bodies.items()):
+        if not fn.startswith("network::") or "::tests::" in fn:
+            continue
+        for i, t in b.calls():
+            m = _SOCK_W.match(t["f"] or "")
+            if not m or b.bbs[i]["cleanup"]:
+                continue
+            n += 1
+            kind = m.group(1)
+            if kind != "write":
+                R.inst(fn, "socket-write:%s" % kind, {"function": fn, "at": b.loc(i), "form": kind})
+                R.finding(fn, "socket-write:all-or-nothing:%s" % kind,
+                          "%s writes to the non-blocking client socket with %s: when the socket buffer fills the bytes already sent are not accounted for (WouldBlock carries no count), so the next attempt sends them again and the client sees duplicated / shifted replies" % (fn.split("::")[-1], kind), b.loc(i))
+                continue
+            # (i) the slice written starts at write_offset of write_buffer
+            P = prov.operand_origins(b, t["a"][1])
+            from_buf = W_BUF in P.fields
+            start_ok = False
+            for c, bbi in P.via:
+                if re.search(r"Index<std::ops::RangeFrom<usize>>>::index$", c):
+                    tt = b.term(bbi)
+                    if len(tt["a"]) > 1 and W_OFF in prov.operand_origins(b, tt["a"][1]).fields:
+                        start_ok = True
+            # (ii) the count returned is added to write_offset
+            counted = False
+            for bb in b.bbs:
+                for st in bb["s"]:
+                    if st["k"] == "=" and st["r"]["k"] == "bin" and st["r"]["op"] in ("Add", "AddWithOverflow", "AddUnchecked"):
+                        ops = [st["r"]["a"], st["r"]["b"]]
+                        offs = [o for o in ops if not op_is_const(o) and (W_OFF in _place_fields(op_place(o)) or W_OFF in prov.operand_origins(b, o).fields)]
+                        cnts = [o for o in ops if not op_is_const(o) and any(r[0] == "call" and r[2] == i for r in prov.operand_origins(b, o).roots)]
+                        if offs and cnts:
+                            counted = True
+            R.inst(fn, "socket-write:write", {"function": fn, "at": b.loc(i), "slice_of_write_buffer": from_buf, "starts_at_write_offset": start_ok, "count_added_to_write_offset": counted})
+            if from_buf and not start_ok:
+                R.finding(fn, "socket-write:not-from-offset", "the slice of the output buffer written to the socket does not start at write_offset: bytes already sent are sent again", b.loc(i))
+            if from_buf and not counted:
+                R.finding(fn, "socket-write:count-dropped", "the number of bytes the socket accepted is not added to write_offset: a partial write is followed by a resend of the same bytes", b.loc(i))
+    R.floor("client_socket_write_sites", n)
